@@ -814,5 +814,52 @@ Section LIFT.
       - rewrite Erun0 in Er. inversion Er; subst stf' tsf'.
         intros k op Hk Hop Kop. apply (Df k). split; [exact Hk|]. exists op. split; assumption.
     Qed.
+
+    (* ---------- final statements, from the empty state, in terms of the model's `reachable` ---------- *)
+    Lemma reach_db_none : reach_db None = [].
+    Proof. reflexivity. Qed.
+
+    Theorem intact_from_empty : forall us ts,
+      (forall x, H x <> ZERO_HASH) -> Forall (ok_commit fuel US UP UE) us ->
+      exists stf tsf, run_db_store None ts us = Ok (stf, tsf) /\
+        db_rel H fuel US UP UE stf (apply_commits [] us) /\
+        forall e, In e (reachable fuel stf) -> st_get (fst e) (ts_nodes tsf) <> None.
+    Proof.
+      intros us ts HZ OK.
+      destruct (db_history us None [] ts (fun _ => False) HZ eq_refl OK) as (stf & tsf & Er & DRf & _ & Sf & _).
+      - intros k [].
+      - intros k [].
+      - intros k [].
+      - exists stf, tsf. split; [exact Er|]. split; [exact DRf|]. intros e He. apply Sf. apply reachable_keys. apply in_map. exact He.
+    Qed.
+
+    Theorem stale_dead_from_empty : forall us1 u us2 ts,
+      (forall x, H x <> ZERO_HASH) ->
+      Forall (ok_commit fuel US UP UE) us1 -> ok_commit fuel US UP UE u -> Forall (ok_commit fuel US UP UE) us2 ->
+      exists st ts1 root st1 ops ts2 stf tsf,
+        run_db_store None ts us1 = Ok (st, ts1) /\
+        put_at_next_version H fuel st u = Ok (root, st1, ops) /\ apply_ops ts1 ops = Ok ts2 /\
+        run_db_store st1 ts2 us2 = Ok (stf, tsf) /\
+        forall e op, In e (reachable fuel st) -> In op ops -> kills op (fst e) ->
+                     ~ In (fst e) (map fst (reachable fuel stf)).
+    Proof.
+      intros us1 u us2 ts HZ OK1 OKu OK2.
+      destruct (db_history us1 None [] ts (fun _ => False) HZ eq_refl OK1) as (st & ts1 & Er1 & DR1 & VR1 & S1 & _);
+        try (intros k []).
+      destruct (commit_facts st (apply_commits [] us1) u HZ DR1 OKu VR1) as (root & st1 & ops & E & DR' & Ev & F).
+      destruct (apply_ops_total ops ts1) as (ts2 & Ea & _).
+      assert (VR' : vers_le (ver_of st1) (reach_db st1)).
+      { intros k Hk. rewrite Ev. destruct (sf_reach _ _ _ _ _ F k Hk) as [Hi|[Ho _]].
+        - destruct k as [v p]. apply ins_keys_in in Hi. destruct Hi as [n Hn]. apply (sf_ops _ _ _ _ _ F) in Hn. cbn in Hn. cbn. lia.
+        - specialize (VR1 k Ho). lia. }
+      destruct (db_history us2 st1 (apply_commit (apply_commits [] us1) u) ts2 (fun _ => False) HZ DR' OK2 VR') as (stf & tsf & Er2 & _).
+      - intros k Hk. apply (facts_intact [] _ ops _ _ ts1 ts2 F Ea S1 k Hk).
+      - intros k [].
+      - exists st, ts1, root, st1, ops, ts2, stf, tsf. repeat split; try assumption.
+        intros e op He Hop Kop Hn.
+        apply (db_stale_dead_forever st _ u root st1 ops us2 ts2 stf tsf HZ DR1 OKu OK2 VR1 E Er2 (fst e) op); try assumption.
+        + apply reachable_keys. apply in_map. exact He.
+        + apply reachable_keys. exact Hn.
+    Qed.
   End DB3.
 End LIFT.
